@@ -183,6 +183,11 @@ def build_cases(sc, obs, with_backup, crash=False, exclude=(), arm_ops=("arm",),
                 c = candidates(pop, pob, p, before, after, num, hs0, hs)
                 if c is None:
                     stats["skipped"] += 1
+                    why = "%s: holders %s -> %s%s" % (pop["op"], [m for m, _ in before[0]], [m for m, _ in after[0]],
+                                                     "" if (before[1] is None) == (after[1] is None) else " (backup list became %sempty)" % ("" if after[1] is None else "non-"))
+                    why = re.sub(r"\d+", "m", why)
+                    stats.setdefault("skip_reasons", {})
+                    stats["skip_reasons"][why] = stats["skip_reasons"].get(why, 0) + 1
                     continue
                 keys = sorted(keys_of(*before[:2]) | keys_of(*after[:2]) | ({num.kid(pop["k"])} if targeted else set()))
                 stats["transitions"] += 1
